@@ -28,6 +28,9 @@ macro_rules! registry {
             "C20" => dispatch!($action, props::c20::C20, $ctx, $path),
             "C15" => dispatch!($action, props::c15::C15, $ctx, $path),
             "C41" => dispatch!($action, props::c41::C41, $ctx, $path),
+            "C16" => dispatch!($action, props::c16::C16, $ctx, $path),
+            "C17" => dispatch!($action, props::c17::C17, $ctx, $path),
+            "C18" => dispatch!($action, props::c18::C18, $ctx, $path),
             _ => {
                 eprintln!("unknown property {}", $id);
                 2
